@@ -528,6 +528,11 @@ func (x *Exec) reportPanic(st *State) {
 		return
 	}
 	x.Obligations++
+	site := "panic: " + st.panic.msg + " @ " + st.panic.pos
+	x.violSite[site]++
+	if x.violSite[site] > 3 {
+		return
+	}
 	// the path is feasible by construction; get a model
 	m, ok := x.sol.Model(st.pc)
 	if !ok {
@@ -1085,7 +1090,7 @@ func (x *Exec) binop(st *State, op token.Token, a, b Value, ta, tb types.Type) V
 	case *Term:
 		bv := b.(*Term)
 		if av.sort.K == SFP {
-			return x.floatOp(op, av, bv)
+			return x.floatOp(st, op, av, bv)
 		}
 		if av.sort.K == SBool {
 			switch op {
@@ -1163,7 +1168,77 @@ func (x *Exec) binop(st *State, op token.Token, a, b Value, ta, tb types.Type) V
 	panic(x.unsupported(fmt.Sprintf("binop %s on %T,%T", op, a, b)))
 }
 
-func (x *Exec) floatOp(op token.Token, a, b *Term) Value {
+// intOfFP returns the integer (as BV64, signed) that the float term denotes
+// when the term is an int->float conversion whose operand provably lies in
+// (-2^53, 2^53) on the current path (so the conversion is exact).
+func (x *Exec) intOfFP(st *State, a *Term) (*Term, bool) {
+	if a.cst {
+		f := math.Float64frombits(a.val)
+		if f == math.Trunc(f) && math.Abs(f) < (1<<53) {
+			return x.tc.Const(64, uint64(int64(f))), true
+		}
+		return nil, false
+	}
+	if a.op != "to_fp_s" && a.op != "to_fp_u" {
+		return nil, false
+	}
+	v := a.args[0]
+	if v.sort.W <= 53 {
+		if a.op == "to_fp_s" {
+			return x.tc.SExt(v, 64), true
+		}
+		return x.tc.ZExt(v, 64), true
+	}
+	if v.sort.W != 64 {
+		return nil, false
+	}
+	lim := x.tc.Const(64, 1<<53)
+	var out *Term
+	if a.op == "to_fp_s" {
+		out = x.tc.Or(x.tc.Cmp("bvsge", v, lim), x.tc.Cmp("bvsle", v, x.tc.BVNeg(lim)))
+	} else {
+		out = x.tc.Cmp("bvuge", v, lim)
+	}
+	if x.sol.Check(st.pc, out) == Unsat {
+		return v, true
+	}
+	return nil, false
+}
+
+func (x *Exec) floatOp(st *State, op token.Token, a, b *Term) Value {
+	// exact integer reasoning where both operands are exactly-converted integers
+	if !(a.cst && b.cst) {
+		if va, ok := x.intOfFP(st, a); ok {
+			if vb, ok := x.intOfFP(st, b); ok {
+				switch op {
+				case token.LSS:
+					return x.tc.Cmp("bvslt", va, vb)
+				case token.LEQ:
+					return x.tc.Cmp("bvsle", va, vb)
+				case token.GTR:
+					return x.tc.Cmp("bvsgt", va, vb)
+				case token.GEQ:
+					return x.tc.Cmp("bvsge", va, vb)
+				case token.MUL:
+					// exact if the product stays below 2^53 in magnitude
+					var sym, cst *Term
+					if vb.cst {
+						sym, cst = va, vb
+					} else if va.cst {
+						sym, cst = vb, va
+					}
+					if cst != nil && cst.val != 0 && sext(cst.val, 64) > 0 {
+						c := sext(cst.val, 64)
+						bound := x.tc.Const(64, uint64((int64(1)<<53)/c))
+						out := x.tc.Or(x.tc.Cmp("bvsge", sym, bound), x.tc.Cmp("bvsle", sym, x.tc.BVNeg(bound)))
+						if x.sol.Check(st.pc, out) == Unsat {
+							return x.tc.App("to_fp_s", FPSort, x.tc.BinBV("bvmul", sym, cst))
+						}
+					}
+				}
+			}
+		}
+	}
 	if a.cst && b.cst {
 		fa, fb := math.Float64frombits(a.val), math.Float64frombits(b.val)
 		switch op {
@@ -1296,13 +1371,18 @@ func (x *Exec) convert(st *State, v Value, from, to types.Type) Value {
 			}
 			if isFloat(from) {
 				a := v.(*Term)
-				// int(float64(y)) for integer y of width<=32 is the identity
-				if (a.op == "to_fp_s" || a.op == "to_fp_u") && a.args[0].sort.W <= 53 {
-					inner := a.args[0]
-					if a.op == "to_fp_s" {
-						return x.tc.SExt(inner, w)
+				// int(float64(y)) is the identity when the conversion was exact
+				if !a.cst {
+					if iv, ok := x.intOfFP(st, a); ok {
+						if !isSigned(to) {
+							// negative values: Go's result is implementation specific; only rewrite when non-negative
+							if x.sol.Check(st.pc, x.tc.Cmp("bvslt", iv, x.tc.Const(64, 0))) == Unsat {
+								return x.tc.Extract(w-1, 0, iv)
+							}
+						} else {
+							return x.tc.Extract(w-1, 0, iv)
+						}
 					}
-					return x.tc.ZExt(inner, w)
 				}
 				if a.cst {
 					f := math.Float64frombits(a.val)
